@@ -17,7 +17,7 @@ MIN_NONTRIVIAL = {'quick': 3000, 'thorough': 50000}
 REQUIRED_CLASSES = ['array-magnitude', 'temperature', 'temperature-prefixed-kelvin', 'temperature-identity', 'level-to-linear', 'linear-to-level',
                     'ratio', 'bel-neper', 'level-offset', 'log-identity', 'level-sum', 'level-difference', 'fraction-form',
                     'power-like', 'amplitude-like', 'neper']
-REQUIRED_MONITORS = ['forward_compares', 'inverse_compares', 'identity_compares', 'sum_compares']
+REQUIRED_MONITORS = ['repeated_value_query_compares', 'forward_compares', 'inverse_compares', 'identity_compares', 'sum_compares']
 ASSUMPTIONS = ['reference formulas are written from the definitions (vt/refmodel/templog_ref.py), SI prefixes hard-coded',
                'rtol 1e-9 plus an absolute term 1e-9*max(|T|,273.15) K for affine maps and 1e-9 bel for levels',
                'B<->Np is compared with ln(10)/2 (the value the two documented definitions imply: B = log10 PR, Np = ln(PR)/2) to 1e-9, like every other pair',
@@ -132,6 +132,15 @@ def _run(case, ctx):
                 vals = q.magnitude.value
             else:
                 vals = q.value(v)
+                # asking a second time is the same conversion of the same quantity: same answer, and the quantity still
+                # reports what it was given
+                again = [float(z) for z in q.value(v)]
+                mon['repeated_value_query_compares'] = mon.get('repeated_value_query_compares', 0) + 1
+                if not all(a == b or (a != a and b != b) or close(a, b, 1e-12, 0.0) for a, b in zip(again, [float(z) for z in vals])):
+                    devs.append(dev('repeated-value-query-gives-another-result', dict(u=u, v=v, x=x, first=[float(z) for z in vals], second=again)))
+                kept = [float(z) for z in q.magnitude.value]
+                if not all(close(z, x, 1e-12, 0.0) or z == x for z in kept) or q.units() != Q(1.0, u).units():
+                    devs.append(dev('value-query-changes-the-array-quantity', dict(u=u, v=v, x=x, now=repr(q)[:120])))
             vals = [float(z) for z in vals]
             if not (vals[0] == vals[1] == vals[2]) and not all(z != z for z in vals):
                 devs.append(dev('array-elements-converted-differently', dict(u=u, v=v, x=x, observed=vals)))
